@@ -13,11 +13,12 @@ Open Scope list_scope.
    with the controls leading the operands, `ctrl(n) @`, the printed angle; one register per measurement group with one
    assignment per listed qubit), read with the standard meaning of the gate names and with the routines the emitted
    header defines, yields EXACTLY the state Circuit::execute returns. `lit` gives cos/sin of a printed literal; the
-   hypothesis lit_ok says the literal denotes the gate's angle (checked on the real text: the literal round-trips). *)
+   hypothesis lit_ok says the literal denotes the gate's angle (checked on the real text: the literal round-trips);
+   ctrl_nodup: every control is listed once (a repeated control is emitted once; that case is decided per text). *)
 Theorem C13_export_sound :
   forall (T : Type) (O : sops T) (of_N : N -> T) (eps tol : T) (lit : qexpr -> T * T * T * T) (par : bool)
          (xs : list (xgate (T:=T))) (is : list instr) (k : N) (st : state (T:=T)) (draws : list T) w',
-  lower_all xs = Some is -> Forall (lit_ok lit) xs -> Forall meas_ok xs ->
+  lower_all xs = Some is -> Forall (lit_ok lit) xs -> Forall meas_ok xs -> Forall ctrl_nodup xs ->
   Circuit.run_gates (gate_apply O of_N eps tol par) (map to_gate xs) (st, draws) = Ok w' ->
   run_items O of_N eps tol lit par header_defs (group_items (body_stmts k is) None) st draws = Ok (fst w').
 Proof. exact @export_sound. Qed.
@@ -26,7 +27,7 @@ Print Assumptions C13_export_sound.
 (* one statement: the gate call emitted for an operator gate names an operator that acts exactly as the executed one *)
 Theorem C13_gate_statement_sound :
   forall (T : Type) (O : sops T) (lit : qexpr -> T * T * T * T) (par : bool) g l ts cs name ps ts' cs' (st s : state (T:=T)),
-  lower (XOp g l ts cs) = Some (IGate name ps ts' cs') -> lit_ok lit (XOp g l ts cs) ->
+  lower (XOp g l ts cs) = Some (IGate name ps ts' cs') -> lit_ok lit (XOp g l ts cs) -> nodupN cs = true ->
   apply_op O par g st ts cs = Ok s ->
   exists g', gate_op O lit name (map lit_expr ps) = Some g' /\ apply_op O par g' st ts' cs' = Ok s.
 Proof. exact @gate_statement_sound. Qed.
@@ -51,7 +52,7 @@ Example C13_nonvacuous :
   let st := mkState (T:=Z) 2%N [(5%Z, 0%Z); (0%Z, 0%Z); (0%Z, 0%Z); (0%Z, 0%Z)] in
   match lower_all xs with
   | Some is =>
-      Forall meas_ok xs /\
+      Forall meas_ok xs /\ Forall ctrl_nodup xs /\
       Circuit.run_gates (gate_apply zops (fun _ => 0%Z) 0%Z 0%Z false) (map to_gate xs) (st, []) =
         Ok (mkState (T:=Z) 2%N [(0%Z, 0%Z); (0%Z, 0%Z); (0%Z, 0%Z); (Z.opp 5%Z, 0%Z)], []) /\
       run_items zops (fun _ => 0%Z) 0%Z 0%Z (fun _ => (1%Z, 0%Z, 1%Z, 0%Z)) false header_defs (group_items (body_stmts 0%N is) None) st [] =
